@@ -611,7 +611,7 @@ Theorem retry_converges_to_c01_spec_l : forall extra ch pub cfg w seg S0 L0 h op
   C1.chain_wf C1.EPrev extra ch = true -> in_range ch h -> L0 <= length ch ->
   Forall (in_range ch) S0 ->
   C1.c_strict cfg = true -> C1.c_hook cfg = C1.HNominate ->
-  C1.c_ads_depth cfg = 0%Z -> C1.c_first_depth cfg = 0%Z ->
+  C1.c_ads_depth cfg = 0%Z -> C1.c_first_depth cfg = 0%Z -> C1.c_lastknown cfg = None ->
   let sg := C1.segment ch (cid_of ch h) (stop_of ch L0) None in
   C1.avail pub (cids ch S0) sg = true ->
   let st1 := fst (C4.step C4.fx_fixed w seg r (C4.run C4.fx_fixed w seg ops (C4.init S0 L0))) in
@@ -625,11 +625,12 @@ Theorem retry_converges_to_c01_spec_l : forall extra ch pub cfg w seg S0 L0 h op
   (forall c, In c (cids ch (C4.s_store st1)) <-> In c (C1.s_store (C1.r_state o))) /\
   (forall c, In c (cids ch (C4.s_store st1)) <-> In c (cids ch S0) \/ In c sg).
 Proof.
-  intros extra ch pub cfg w seg S0 L0 h ops r Hw Hops Hr Hwf Hh HL HS0 Hstrict Hhook Hads Hfirst sg Hav st1 o moved.
+  intros extra ch pub cfg w seg S0 L0 h ops r Hw Hops Hr Hwf Hh HL HS0 Hstrict Hhook Hads Hfirst Hlk sg Hav st1 o moved.
+  assert (Heff : forall st, C1.eff_latest cfg st = C1.s_latest st) by (intro st0; unfold C1.eff_latest; rewrite Hlk; destruct (C1.s_latest st0); reflexivity).
   pose proof (chain_nodup _ _ Hwf) as Hnd.
   (* C01's specification, instantiated *)
-  assert (Hstop : C1.stop_table (C1.s_latest (c01_state ch S0 L0)) (C1.a_stop (c01_call (cid_of ch h)))
-                                (C1.a_resync (c01_call (cid_of ch h))) = stop_of ch L0) by reflexivity.
+  assert (Hstop : C1.stop_table (C1.eff_latest cfg (c01_state ch S0 L0)) (C1.a_stop (c01_call (cid_of ch h)))
+                                (C1.a_resync (c01_call (cid_of ch h))) = stop_of ch L0) by (rewrite Heff; reflexivity).
   assert (Hlim : forall stop, C1.depth_table (C1.c_ads_depth cfg) (C1.c_first_depth cfg)
                                 (C1.a_depth (c01_call (cid_of ch h))) stop = None).
   { intros stop. unfold C1.depth_table. rewrite Hads, Hfirst. destruct stop; reflexivity. }
@@ -637,9 +638,9 @@ Proof.
   { rewrite is_stop_pos by assumption. reflexivity. }
   assert (Hav' : C1.avail pub (C1.s_store (c01_state ch S0 L0))
             (C1.segment ch (cid_of ch h)
-               (C1.stop_table (C1.s_latest (c01_state ch S0 L0)) (C1.a_stop (c01_call (cid_of ch h))) (C1.a_resync (c01_call (cid_of ch h))))
+               (C1.stop_table (C1.eff_latest cfg (c01_state ch S0 L0)) (C1.a_stop (c01_call (cid_of ch h))) (C1.a_resync (c01_call (cid_of ch h))))
                (C1.depth_table (C1.c_ads_depth cfg) (C1.c_first_depth cfg) (C1.a_depth (c01_call (cid_of ch h)))
-                  (C1.stop_table (C1.s_latest (c01_state ch S0 L0)) (C1.a_stop (c01_call (cid_of ch h))) (C1.a_resync (c01_call (cid_of ch h)))))) = true).
+                  (C1.stop_table (C1.eff_latest cfg (c01_state ch S0 L0)) (C1.a_stop (c01_call (cid_of ch h))) (C1.a_resync (c01_call (cid_of ch h)))))) = true).
   { rewrite Hstop, Hlim. exact Hav. }
   pose proof (P1.sync_ad_chain_spec extra ch pub cfg (c01_call (cid_of ch h)) (c01_state ch S0 L0) (cid_of ch h) true
                 Hwf Hstrict Hhook eq_refl (cid_of_In ch h Hh) Hav') as Ho.
